@@ -12,12 +12,12 @@ use swiftness_air::{
     types::{AddrValue, ContinuousPageHeader, Page},
 };
 
-/// Dilute(x): bit i of x moves to bit i*spacing.
-fn dilute(x: u32, spacing: u32, n_bits: u32) -> u128 {
-    let mut r = 0u128;
+/// Dilute(x): bit i of x moves to bit i*spacing (an integer; reduced modulo p only when it enters the field).
+fn dilute(x: u32, spacing: u32, n_bits: u32) -> BigUint {
+    let mut r = BigUint::zero();
     for i in 0..n_bits {
         if (x >> i) & 1 == 1 {
-            r |= 1u128 << (i * spacing);
+            r |= BigUint::one() << ((i * spacing) as usize);
         }
     }
     r
@@ -27,10 +27,10 @@ fn dilute(x: u32, spacing: u32, n_bits: u32) -> u128 {
 /// 2^n_bits diluted values, u_j = Dilute(j) - Dilute(j-1).
 pub fn ref_diluted(n_bits: u32, spacing: u32, z: Felt, alpha: Felt) -> Felt {
     let mut r = Felt::ONE;
-    let mut prev = 0u128;
+    let mut prev = BigUint::zero();
     for j in 1..(1u32 << n_bits) {
         let d = dilute(j, spacing, n_bits);
-        let u = Felt::from(d - prev);
+        let u = crate::kit::b2f(&(&d - &prev));
         prev = d;
         r = r * (Felt::ONE + z * u) + alpha * u * u;
     }
@@ -151,7 +151,7 @@ pub fn run(ctx: &Ctx) -> Report {
     let mut rep = Report::new(
         "C15",
         "exploration",
-        "diluted product: all 128 (n_bits in 1..=16, spacing in 1..=8) x (z, alpha) point menu against the defining recurrence \
+        "diluted product: all 128 (n_bits in 1..=16, spacing in 1..=8) and 40 wide-gap pairs (n_bits in {2,5,10,12,16}, spacing in {9,16,23,40,64,127,128,251}) x (z, alpha) point menu against the defining recurrence \
          over all 2^n_bits diluted values; plus, per the degree argument (both sides have degree 2^n_bits - 1 in z and 1 in \
          alpha), 2^n_bits distinct z x 2 alpha for n_bits<=10 (quick) / additionally the production instance (16,4) on 65536 z \
          (thorough), which makes the equality an identity. Public-memory ratio: main page of 0..=3 cells from a menu x 0..=2 \
@@ -162,7 +162,13 @@ pub fn run(ctx: &Ctx) -> Report {
     let quick = ctx.quick();
     let menu = point_menu(ctx, if quick { 4 } else { 6 });
     // ---- diluted, point menu
-    let pairs: Vec<(u32, u32)> = (1..=16u32).flat_map(|n| (1..=8u32).map(move |s| (n, s))).collect();
+    let mut pairs: Vec<(u32, u32)> = (1..=16u32).flat_map(|n| (1..=8u32).map(move |s| (n, s))).collect();
+    // wide gaps: (n_bits - 1) * spacing beyond 64, 128 and 251 bits (gaps that do not fit a machine word / the field)
+    for n in [2u32, 5, 10, 12, 16] {
+        for sp in [9u32, 16, 23, 40, 64, 127, 128, 251] {
+            pairs.push((n, sp));
+        }
+    }
     let res: Vec<Report> = pairs
         .par_iter()
         .map(|&(n, s)| {
@@ -229,7 +235,7 @@ pub fn run(ctx: &Ctx) -> Report {
     let cell_menu = vec![(Felt::ONE, Felt::ZERO), (fu(2), rr.felt()), (rr.felt(), p_minus(1)), (fu(1 << 40), fu(7))];
     let hdr_menu = vec![(fu(100), fu(3), rr.felt(), rr.felt()), (fu(500), Felt::ZERO, rr.felt(), Felt::ONE), (fu(9), fu(1000), rr.felt(), p_minus(1))];
     let pad_menu = vec![(Felt::ONE, Felt::ZERO), (rr.felt(), rr.felt()), (Felt::ZERO, Felt::ZERO)];
-    let zmenu: Vec<Felt> = if quick { vec![Felt::TWO, rr.felt()] } else { vec![Felt::ONE, Felt::TWO, p_minus(1), rr.felt()] };
+    let zmenu: Vec<Felt> = if quick { vec![Felt::ONE, Felt::TWO, rr.felt()] } else { vec![Felt::ONE, Felt::TWO, p_minus(1), rr.felt()] };
     let amenu: Vec<Felt> = if quick { vec![Felt::ZERO, rr.felt()] } else { vec![Felt::ZERO, Felt::ONE, rr.felt()] };
     let mut cases = Vec::new();
     // main pages: every sequence (with repetition, order matters) of 0..=3 cells from the menu
